@@ -325,7 +325,10 @@ impl GenericsAnalyzer {
         if let Some(where_clause) = &generics.where_clause {
             for predicate in &where_clause.predicates {
                 match predicate {
-                    syn::WherePredicate::Type(predicate_type) => match &predicate_type.bounded_ty {
+                    // (the bounded type may be parenthesised, or a `$t:ty` fragment of `macro_rules!`)
+                    syn::WherePredicate::Type(predicate_type) => match crate::signature::peel_type(
+                        &predicate_type.bounded_ty,
+                    ) {
                         syn::Type::Path(type_path) => {
                             if type_path.qself.is_some() || type_path.path.leading_colon.is_some() {
                                 self.lift_where_predicate(predicate, generics);
